@@ -53,7 +53,10 @@ Inductive c10case :=
 | CRederive (init : Q) (l : list bcs) (out : option (list bcs))
 (* the timing map built from a tempo list (any order, any positions, equal neighbouring tempos) holds exactly the
    tempo changes given: BpmList.to_timing_map / from_bpm_changes_offset drop, merge or invent nothing *)
-| CKeeps (given got : list bco).
+| CKeeps (given got : list bco)
+(* Snapper(divisions=...) with custom divisions in any listing order: the allowed fractions are those of denominator up to
+   max(divisions) (table t, built by the harness from that rule, not from the implementation) *)
+| CSnapperT (t : list Q) (x out : Q).
 
 Record verdict := { corr_ok : bool; spec_ok : bool; wf_ok : bool }.
 
@@ -106,6 +109,12 @@ Definition keeps_ok (given got : list bco) : bool :=
 Definition check (c : c10case) : verdict :=
   match c with
   | CKeeps given got => {| corr_ok := true; spec_ok := keeps_ok given got; wf_ok := true |}
+  | CSnapperT t x out =>
+      let fl := inject_Z (Qfloor x) in
+      {| corr_ok := Qeq_bool (snapper_snap t x) out;
+         spec_ok := existsb (fun v => Qeq_bool (v + fl) out) t
+                    && forallb (fun v => Qle_bool (Qabs (out - x)) (Qabs (v + fl - x))) t;
+         wf_ok := true |}
   | COffsets tol init l qs out =>
       let m := match model_tm init l with None => None | Some b => tm_offsets tbl b qs end in
       let wf := domainb tbl l qs && forallb (fun c => is_int_1_8 (bs_met c)) l in
